@@ -160,6 +160,9 @@ def build(spec):
         return spec[1]
     if t == 'float':
         return float(spec[1])
+    if t == 'strcp':
+        # a str given by its code points (may hold lone surrogates, which JSON replay files cannot carry as text)
+        return ''.join(chr(c) for c in spec[1])
     if t == 'enum':
         return cls_of(spec[1], spec[2])[spec[3]]
     if t == 'list':
@@ -179,7 +182,7 @@ def build(spec):
 
 
 def hx(s):
-    return s.encode('utf-8').hex()
+    return s.encode('utf-8', 'surrogatepass').hex()
 
 
 def words(spec, out=None):
@@ -369,3 +372,13 @@ def shrink(spec, bad, budget=150):
             except Exception:
                 continue
     return cur
+
+
+def fold_surrogates(spec):
+    """the spec with every str written the way json.dumps/json.loads hands it back: a high surrogate
+    followed by a low surrogate becomes the astral character they spell (known finding F07c)"""
+    if isinstance(spec, list):
+        if spec and spec[0] == 'strcp':
+            return ['str', ''.join(chr(c) for c in spec[1]).encode('utf-16', 'surrogatepass').decode('utf-16', 'surrogatepass')]
+        return [fold_surrogates(x) for x in spec]
+    return spec
